@@ -51,6 +51,9 @@ def run(res, tier, seed):
                 "non-trivial = at least one sample and one interval; distinct = distinct (ts, ep)")
     res.exhaustive = True
     cases = list(kernel_cases(tier, seed))
+    # two thirds of the cases are translated to straddle / lie below t = 0 (zero-initialised buffers: sign matters)
+    offs = [0, -3000, -10**7]
+    cases = [([t + offs[n % 3] for t in ts], [(a + offs[n % 3], b + offs[n % 3]) for a, b in ep]) for n, (ts, ep) in enumerate(cases)]
     lines = ["restrict\t%s\t%s" % (C.fmt_ints(ts), C.fmt_iset(ep)) for ts, ep in cases]
     model = C.run_model(lines)
     pyf_every = 5 if tier == "quick" else 3
